@@ -117,6 +117,26 @@ def targeted(rng):
         yield "pubs %s 0" % (hx(good[:k].encode()) if k else "-")
         yield "pubs %s 0" % (hx(("A" * k).encode()) if k else "-")
         yield "pubs %s 0" % (hx(("7" * k).encode()) if k else "-")
+    # elements in non-minimal encoding (16-bit header on a short element) at the top and nested: serialized into an exact-size buffer
+    for body in (b"", b"\xaa\xbb", rng.randbytes(30), rng.randbytes(254)):
+        for tag in (0x01, 0x1f, 0x10):
+            leaf = tlv(tag, body, force16=True)
+            yield "el %s" % hx(leaf)
+            yield "el %s" % hx(tlv(0x05, leaf + tlv(0x02, b"\x01")))
+            yield "el %s" % hx(tlv(0x105, tlv(0x05, leaf), force16=True))
+            yield "tlv %s 0" % hx(leaf)
+    # calendar chains in which a left link (not the first link) carries an imprint of an algorithm the table knows but the build
+    # cannot compute (SHA3, SM3): the hasher cannot be re-opened in the middle of the chain
+    for alg, dl in ((7, 28), (8, 32), (9, 48), (0x0a, 64), (0x0b, 32), (2, 20), (6, 32)):
+        for _ in range(2):
+            s = S.build(rng, with_cal=True, anchor=rng.choice(["pub", "auth", None]))
+            lefts = [i for i, (d, _) in enumerate(s.cal.links) if d and i > 0]
+            if not lefts:
+                continue
+            k = rng.choice(lefts)
+            s.cal.links[k] = (True, bytes([alg]) + rng.randbytes(dl))
+            yield "sig %s %d" % (hx(s.enc()), rng.randrange(0, 6))
+            yield "tlv %s 0" % hx(s.cal.enc())
     # a composite element whose payload ends in the beginning of a header: 1 octet of a short header, 1..3 octets of a long one
     for outer in (0x800, 0x801, 0x221, 0x0100, 0x1f):
         for first in (b"", tlv(0x01, b"\x05"), tlv(0x02, rng.randbytes(40))):
